@@ -1,0 +1,105 @@
+/*
+ * Copyright 2025 The RuleGo Authors.
+ *
+ * Licensed under the Apache License, Version 2.0 (the "License");
+ * you may not use this file except in compliance with the License.
+ * You may obtain a copy of the License at
+ *
+ *     http://www.apache.org/licenses/LICENSE-2.0
+ *
+ * Unless required by applicable law or agreed to in writing, software
+ * distributed under the License is distributed on an "AS IS" BASIS,
+ * WITHOUT WARRANTIES OR CONDITIONS OF ANY KIND, either express or implied.
+ * See the License for the specific language governing permissions and
+ * limitations under the License.
+ */
+
+package e2e
+
+import (
+	"testing"
+	"time"
+
+	"github.com/rulego/streamsql"
+	"github.com/stretchr/testify/assert"
+	"github.com/stretchr/testify/require"
+)
+
+// runParamAggregate runs sql over rows and returns the first result it fires.
+func runParamAggregate(t *testing.T, sql string, rows []map[string]any) map[string]any {
+	t.Helper()
+	ssql := streamsql.New()
+	defer ssql.Stop()
+	require.NoError(t, ssql.Execute(sql))
+
+	ch := make(chan []map[string]any, 8)
+	ssql.AddSink(func(results []map[string]any) { ch <- results })
+	for _, row := range rows {
+		ssql.Emit(row)
+	}
+	select {
+	case res := <-ch:
+		require.Len(t, res, 1)
+		return res[0]
+	case <-time.After(5 * time.Second):
+		t.Fatalf("no result for %s", sql)
+		return nil
+	}
+}
+
+func paramRows() []map[string]any {
+	return []map[string]any{
+		{"k": "b", "v": 1, "w": 1, "o": map[string]any{"x": 11}},
+		{"k": "b", "v": 2, "w": nil},
+		{"k": "b", "v": 3, "w": 1, "o": map[string]any{"x": 12}},
+		{"k": "b", "v": 10, "w": 4, "o": map[string]any{"x": 13}},
+	}
+}
+
+// TestGlobalWindow_ParameterisedAggregates: the extra argument of a selected
+// aggregate configures it in a global window as it does in every other window.
+func TestGlobalWindow_ParameterisedAggregates(t *testing.T) {
+	t.Parallel()
+	items := `k, percentile(v, 0) AS p0, percentile(v, 0.5) AS p50, PERCENTILE(v, 1) AS p100,
+        percentile(v, 0) + 1 AS p0plus, percentile(v*2, 0.5) AS pexpr, percentile(w, 1) AS pw,
+        nth_value(v, 2) AS n2, nth_value(v - w, 2) AS nexpr, NTH_VALUE(o.x, 3) AS n3, nth_value(o.x, 4) AS n4,
+        deduplicate(w, true) AS d`
+	for _, win := range []string{"GLOBAL WINDOW TRIGGER WHEN count(*) >= 4", "CountingWindow(4)"} {
+		got := runParamAggregate(t, "SELECT "+items+" FROM stream GROUP BY k, "+win, paramRows())
+		assert.EqualValues(t, 1, got["p0"], win)
+		assert.EqualValues(t, 2, got["p50"], win)
+		assert.EqualValues(t, 10, got["p100"], win)
+		assert.EqualValues(t, 2, got["p0plus"], win)
+		assert.EqualValues(t, 4, got["pexpr"], win)
+		assert.EqualValues(t, 4, got["pw"], win)
+		assert.EqualValues(t, 2, got["n2"], win)
+		assert.EqualValues(t, 2, got["nexpr"], win)
+		assert.EqualValues(t, 13, got["n3"], win)
+		assert.Nil(t, got["n4"], win)
+		assert.Len(t, got["d"], 2, win)
+	}
+}
+
+// TestGlobalWindow_TriggerOverParameterisedAggregate: a parameterised aggregate
+// in TRIGGER WHEN is computed with its extra argument, and is not taken for a
+// selected aggregate of the same column with another argument.
+func TestGlobalWindow_TriggerOverParameterisedAggregate(t *testing.T) {
+	t.Parallel()
+	got := runParamAggregate(t, `SELECT k, count(*) AS c FROM stream
+        GROUP BY k, GLOBAL WINDOW TRIGGER WHEN percentile(v, 0) >= 1 AND count(*) >= 4`, paramRows())
+	assert.EqualValues(t, 4, got["c"])
+
+	got = runParamAggregate(t, `SELECT k, percentile(v, 0) AS lo, count(*) AS c FROM stream
+        GROUP BY k, GLOBAL WINDOW TRIGGER WHEN percentile(v, 1) >= 3`, paramRows()[:3])
+	assert.EqualValues(t, 3, got["c"])
+	assert.EqualValues(t, 1, got["lo"])
+
+	got = runParamAggregate(t, `SELECT k, percentile(v, 1) AS hi, count(*) AS c FROM stream
+        GROUP BY k, GLOBAL WINDOW TRIGGER WHEN percentile(v, 1) >= 3`, paramRows()[:3])
+	assert.EqualValues(t, 3, got["c"])
+	assert.EqualValues(t, 3, got["hi"])
+
+	got = runParamAggregate(t, `SELECT k, count(*) AS c FROM stream
+        GROUP BY k, GLOBAL WINDOW TRIGGER WHEN nth_value(v, 3) >= 3`, paramRows())
+	assert.EqualValues(t, 3, got["c"])
+}
